@@ -125,6 +125,11 @@ func init() {
 			return one(tArith("-", now, fe.val(a[0])))
 		},
 		"sort.Strings": effSortStrings,
+		"errors.Join":  effErrorsJoin,
+		"(*time.Timer).Stop":  effTimerSet(false),
+		"(*time.Timer).Reset": effTimerSet(true),
+		"time.AfterFunc":      effAfterFunc,
+		"sort.Sort":           effSortSort,
 	}
 }
 
@@ -271,4 +276,112 @@ func (fe *FnEnc) havocPointee(st *State, rv RV, ptrT types.Type) {
 	v := fe.fresh("ext.out", fe.sorts.sortOf(el))
 	fe.assumeWF(st, el, v)
 	fe.store(st, a, v)
+}
+
+func ufFresh(ret string) effectFn {
+	return func(fe *FnEnc, st *State, callee *ssa.Function, args []RV, pos token.Pos) []RV {
+		if fe.dry {
+			return one(zeroOfSort(ret))
+		}
+		return one(fe.fresh("ext", ret))
+	}
+}
+
+// timers: ghost flag "armed" (the timer will still call its function); AfterFunc and Reset arm, Stop disarms
+const timerArmed = "M.Timer.armed"
+
+func effTimerSet(armed bool) effectFn {
+	return func(fe *FnEnc, st *State, callee *ssa.Function, args []RV, pos token.Pos) []RV {
+		srt := arrSort(sInt, sBool)
+		h := fe.getComp(st, timerArmed, srt)
+		fe.setComp(st, timerArmed, srt, tStore(h, fe.val(args[0]), tBool(armed)))
+		if fe.dry {
+			return one(tFalse)
+		}
+		return one(fe.fresh("timer.was", sBool))
+	}
+}
+
+// time.AfterFunc returns a fresh armed timer; the function it schedules is not run as part of this call
+func effAfterFunc(fe *FnEnc, st *State, callee *ssa.Function, args []RV, pos token.Pos) []RV {
+	r := fe.newRef(st)
+	srt := arrSort(sInt, sBool)
+	h := fe.getComp(st, timerArmed, srt)
+	fe.setComp(st, timerArmed, srt, tStore(h, r, tTrue))
+	fe.assumed["time.AfterFunc: the scheduled function is not part of the caller's sequential behaviour"] = true
+	return one(r)
+}
+
+// sort.Sort on a *sortKeys: the keys are permuted in place (Len/Less/Swap of sortKeys are verified separately;
+// the order itself is not modelled)
+func effSortSort(fe *FnEnc, st *State, callee *ssa.Function, args []RV, pos token.Pos) []RV {
+	mi, ok := fe.curCallRecv.(*ssa.MakeInterface)
+	if !ok {
+		fe.havocs["sort.Sort on unknown value"] = true
+		fe.havocAll(st)
+		return nil
+	}
+	n, ok := derefNamed(mi.X.Type())
+	if !ok || n.Obj().Name() != "sortKeys" {
+		fe.havocs["sort.Sort on "+mi.X.Type().String()] = true
+		fe.havocAll(st)
+		return nil
+	}
+	pt := mi.X.Type().Underlying().(*types.Pointer).Elem()
+	p := fe.val(fe.get(st, mi.X))
+	sT := structOf(pt)
+	var keys Term
+	var elT types.Type
+	for i := 0; i < sT.NumFields(); i++ {
+		if sT.Field(i).Name() == "keys" {
+			keys = fe.loadField(st, pt, i, p, false)
+			elT = sT.Field(i).Type().Underlying().(*types.Slice).Elem()
+		}
+	}
+	es := fe.sorts.sortOf(elT)
+	cn, cs := compElems(es), arrSort(sInt, arrSort(sInt, es))
+	fe.compT[cn] = elT
+	h := fe.getComp(st, cn, cs)
+	if fe.dry {
+		fe.setComp(st, cn, cs, h)
+		return nil
+	}
+	fe.permuteRow(st, cn, cs, h, keys)
+	fe.assumed["sort.Sort permutes the keys of a sortKeys in place (order not modelled)"] = true
+	return nil
+}
+
+// permuteRow replaces the window of a slice by a permutation of itself
+func (fe *FnEnc) permuteRow(st *State, cn, cs string, h Term, s Term) (Term, Term) {
+	rowS := arrElemSort(cs)
+	old := fe.define("perm.old", tSel(h, slArr(s)))
+	nr := fe.fresh("perm.row", rowS)
+	perm := fe.fresh("perm.f", arrSort(sInt, sInt))
+	inv := fe.fresh("perm.inv", arrSort(sInt, sInt))
+	lo := fe.define("perm.lo", slOff(s))
+	hi := fe.define("perm.hi", tArith("+", slOff(s), slLen(s)))
+	in := func(p string) string { return fmt.Sprintf("(and (<= %s %s) (< %s %s))", lo.S, p, p, hi.S) }
+	fe.emit(fmt.Sprintf("(assert (forall ((p Int)) (! (=> (not %s) (= (select %s p) (select %s p))) :pattern ((select %s p)))))", in("p"), nr.S, old.S, nr.S))
+	fe.emit(fmt.Sprintf("(assert (forall ((p Int)) (! (=> %s (and %s (= (select %s p) (select %s (select %s p))) (= (select %s (select %s p)) p))) :pattern ((select %s p)) :pattern ((select %s p)))))",
+		in("p"), in("(select "+perm.S+" p)"), nr.S, old.S, perm.S, inv.S, perm.S, nr.S, perm.S))
+	fe.emit(fmt.Sprintf("(assert (forall ((p Int)) (! (=> %s (and %s (= (select %s (select %s p)) p) (= (select %s (select %s p)) (select %s p)))) :pattern ((select %s p)) :pattern ((select %s p)))))",
+		in("p"), in("(select "+inv.S+" p)"), perm.S, inv.S, nr.S, inv.S, old.S, inv.S, old.S))
+	fe.setComp(st, cn, cs, tStore(h, slArr(s), nr))
+	fe.rowFrame(h, fe.getComp(st, cn, cs), slArr(s))
+	return nr, old
+}
+
+// errors.Join(errs...): nil exactly when every element is nil
+func effErrorsJoin(fe *FnEnc, st *State, callee *ssa.Function, args []RV, pos token.Pos) []RV {
+	s := fe.val(args[0])
+	if fe.dry {
+		return one(nilIface)
+	}
+	h := fe.getComp(st, compElems(sIface), arrSort(sInt, arrSort(sInt, sIface)))
+	r := fe.fresh("join", sIface)
+	row := fe.define("join.row", tSel(h, slArr(s)))
+	fe.emit(fmt.Sprintf("(assert (= (= %s (mkIface 0 0)) (forall ((p Int)) (! (=> (and (<= %s p) (< p (+ %s %s))) (= (select %s p) (mkIface 0 0))) :pattern ((select %s p))))))",
+		r.S, slOff(s).S, slOff(s).S, slLen(s).S, row.S, row.S))
+	fe.emit("(assert (=> (= " + ifTyp(r).S + " 0) (= " + ifVal(r).S + " 0)))")
+	return one(r)
 }
